@@ -9,7 +9,12 @@ for f in sorted(glob.glob('/verif/seeded/*/*/meta.json')):
     for chk, v in m['checks_quick'].items():
         sig = v['signatures'][0].split(' cases=')[0] if v['signatures'] else ''
         rc = m.get('recheck', {}).get('result', '')
-        rc = {'caught': 'caught', 'not caught': 'NOT CAUGHT', 'machinery': 'machinery'}.get(rc, 'n/a (patch no longer applies)' if rc else '')
+        rcnote = m.get('recheck', {}).get('note', '')
+        rc = {'caught': 'caught', 'not caught': 'NOT CAUGHT', 'machinery': 'machinery', 'not a property break on the final tree': 'neutralised by a repair (' + rcnote[:60] + '...)'}.get(rc, 'n/a (patch no longer applies)' if rc else '')
+        if int(m['id'][1:]) >= 7:
+            rc = 'caught (written for the final tree)' if v['exit'] == 1 else 'MISSED'
+        elif not rc:
+            rc = 'not re-run'
         rows.append((m['property'], m['id'], 'sub-agent', chk, 'caught' if v['exit'] == 1 else 'MISSED', rc, sig[:70], m.get('note', '')))
 res = '/verif/mutations/RESULTS.json'
 if os.path.exists(res):
